@@ -16,6 +16,7 @@ import ast
 import hashlib
 import hmac
 import os
+import random
 
 from harness.common import MachineryError, REJECT, REPO, xb, xs, unx, uns, blist, batch_parallel, pmap
 
@@ -31,6 +32,7 @@ ANCHORS = [
     # pbkdf2.binxor is defined inside a module-level if/else: the fingerprint resolver of ./check does not reach it
     ("buidl/helper.py", "hmac_sha512_kdf"),
     ("buidl/hd.py", "HDPrivateKey.from_mnemonic"), ("buidl/hd.py", "HDPrivateKey.from_seed"),
+    ("buidl/hd.py", "HDPrivateKey.generate"), ("buidl/mnemonic.py", "secure_mnemonic"),
 ]
 RULE = ("cases come from one PRNG seeded by VERIF_SEED plus fixed catalogues: entropy of every size 16/20/24/28/32 "
         "(all-zero, all-0xff, 0x80.., 0x7f.., counting bytes, random), matching / mismatching / invalid num_bits and "
@@ -77,7 +79,7 @@ SIZES = [16, 20, 24, 28, 32]
 WORD_COUNTS = (12, 15, 18, 21, 24)
 HASHES = {"sha512": 64, "sha256": 32, "sha1": 20}
 HEAVY_OPS = ("seed", "master")
-HEAVY_PREDS = ("from_mnemonic", "prefix_same", "trezor_vector")
+HEAVY_PREDS = ("from_mnemonic", "prefix_same", "trezor_vector", "generate")
 
 
 class UnknownOp(Exception):
@@ -512,7 +514,63 @@ def p_codec_history(c):
     return got == want, got, want
 
 
-PREDICATES = {"from_seed_history": p_from_seed_history, "codec_history": p_codec_history,
+STD_VERSIONS = {"mainnet": ("0488ade4", "0488b21e"), "testnet": ("04358394", "043587cf"),
+                "signet": ("04358394", "043587cf"), "regtest": ("04358394", "043587cf")}
+
+
+def p_generate(c):
+    """HDPrivateKey.generate(password, extra_entropy, network, priv_version, pub_version) returns (mnemonic, key): the
+    mnemonic is a valid 24-word BIP39 mnemonic and the key is the master key of (THAT mnemonic, THE GIVEN passphrase):
+    secret ‖ chain code = the model's answer (drv_c14 `master`, RFC 2898 + HMAC) = hashlib's; network and version bytes
+    as requested; the same key as from_mnemonic(mnemonic, password, network=..., versions...)"""
+    import buidl.hd as HD
+    import buidl.mnemonic as M
+    from harness.common import Driver
+    pw, net = unx(c["pass"]), c["network"]
+    pv = bytes.fromhex(c["priv_version"]) if c["priv_version"] else None
+    bv = bytes.fromhex(c["pub_version"]) if c["pub_version"] else None
+    orig = M.randbits
+    r = random.Random(c["seed"])
+    M.randbits = lambda n: r.getrandbits(n)
+    try:
+        if c["form"] == "positional":
+            mn, key = HD.HDPrivateKey.generate(pw, c["extra_entropy"], net, pv, bv)
+        elif c["form"] == "keywords":
+            mn, key = HD.HDPrivateKey.generate(password=pw, extra_entropy=c["extra_entropy"], network=net,
+                                               priv_version=pv, pub_version=bv)
+        else:   # only what differs from the defaults
+            kw = {}
+            if pw != b"":
+                kw["password"] = pw
+            if c["extra_entropy"]:
+                kw["extra_entropy"] = c["extra_entropy"]
+            if net != "mainnet":
+                kw["network"] = net
+            if pv:
+                kw["priv_version"] = pv
+            if bv:
+                kw["pub_version"] = bv
+            mn, key = HD.HDPrivateKey.generate(**kw)
+    finally:
+        M.randbits = orig
+    dec = oracle_decode(mn)
+    words_ok = dec is not None and len(mn.split()) == 24 and mn == " ".join(dec[1])
+    model = Driver("drv_c14").one(f"master {xs(mn)} {xb(pw)}")
+    seed = hashlib.pbkdf2_hmac("sha512", mn.encode(), b"mnemonic" + pw, 2048, 64)
+    ref = xb(hmac.new(b"Bitcoin seed", seed, hashlib.sha512).digest())
+    other = HD.HDPrivateKey.from_mnemonic(mn, pw, network=net, priv_version=pv, pub_version=bv)
+    exp_pv = c["priv_version"] or STD_VERSIONS[net][0]
+    exp_bv = c["pub_version"] or STD_VERSIONS[net][1]
+
+    def obs(k):
+        return [xb(k.private_key.secret.to_bytes(32, "big") + k.chain_code), k.network, bytes(k.priv_version).hex(),
+                bytes(k.pub.pub_version).hex(), k.depth, k.child_number]
+    got = [words_ok, obs(key), obs(other), mn]
+    want = [True, [model, net, exp_pv, exp_bv, 0, 0], [ref, net, exp_pv, exp_bv, 0, 0], mn]
+    return got == want, got, want
+
+
+PREDICATES = {"generate": p_generate, "from_seed_history": p_from_seed_history, "codec_history": p_codec_history,
               "pbkdf2_history": p_pbkdf2_history, "wordlist_history": p_wordlist_history,
               "wordlist_fingerprint": p_fingerprint, "wordlist_tables": p_wordlist, "roundtrip": p_roundtrip, "words_layout": p_words, "acceptance": p_accept, "pbkdf2_rfc2898": p_pbkdf2,
               "from_mnemonic": p_from_mnemonic, "prefix_same": p_prefix_same, "trezor_vector": p_trezor}
@@ -933,6 +991,23 @@ def run(ctx):
     preds.append(("from_seed_history", {"seeds": [xb(x) for x in
                   [s0, s0[:32], s0[32:], s0 + b"\x00", s0, bytes(64), s0[:63], s0, rbytes(rng, 16), s0[:32]]]}))
     preds.append(("codec_history", {"entropies": [xb(e) for e in es + [es[0], es[1]] + list(reversed(es))]}))
+
+    # ---- HDPrivateKey.generate: the returned key must belong to (returned mnemonic, GIVEN passphrase)
+    gen_pws = [b"", b"TREZOR", b"pass phrase", "pässwörd€".encode("utf-8"), "A\u030a\u2126\ufb01".encode("utf-8"), "\u00c5".encode("utf-8"),
+               b"\xff\xfe\x00", rbytes(rng, 33)]
+    gi = 0
+    for net in ("mainnet", "testnet", "signet", "regtest"):
+        for form in ("keywords", "positional", "minimal"):
+            for pw in ([gen_pws[gi % len(gen_pws)], b""] if not ctx.thorough else gen_pws):
+                gi += 1
+                over = gi % 4 == 0
+                preds.append(("generate", {"pass": xb(pw), "network": net, "form": form, "seed": rng.getrandbits(32),
+                                           "extra_entropy": rng.choice([0, 1, rng.getrandbits(64), 2 ** 300 + 7]),
+                                           "priv_version": "02aa7a99" if over else "",
+                                           "pub_version": "02aa7ed3" if over or gi % 5 == 0 else ""}))
+    for pw in gen_pws:
+        preds.append(("generate", {"pass": xb(pw), "network": "mainnet", "form": "keywords", "seed": rng.getrandbits(32),
+                                   "extra_entropy": 0, "priv_version": "", "pub_version": ""}))
 
     # ---- histories on ONE object
     def hist_ops(h):
